@@ -24,6 +24,9 @@ MC = {
 }
 
 
+ACTIONS = {"C12": ("ConsumeW", "ReleaseW"), "C13": ("ViaClientR", "ListSlotsR")}
+
+
 def build(prop):
     return vlib.build_harness("wire", "agent/yubiagent", OVERLAY, outdir=os.path.join(vlib.OUT, prop, "bin"))
 
@@ -41,6 +44,10 @@ def model_check(prop, tier, extra_cfg=""):
     if r.error or "Model checking completed. No error" not in r.stdout:
         raise NoVerdict("TLC failed on %s: %s" % (cfg, r.error or r.stdout[-2000:]))
     log("[tlc] %s: %d generated / %d distinct, depth %d, %.1fs" % (cfg, r.generated, r.distinct, r.depth, r.wall))
+    # (TLC reports the first conjunct of an initial predicate as 0:0; only next-state actions count)
+    r.coverage_zero = [a for a in r.coverage_zero if a in ACTIONS[prop]]
+    if r.coverage_zero:
+        raise NoVerdict("vacuous model run: actions never taken under %s: %s" % (cfg, r.coverage_zero))
     return r, cfg
 
 
